@@ -91,7 +91,7 @@ def gen(rng: Rng, tier: str, index: int) -> dict:
 
 
 # ------------------------------------------------------------------ generic walker
-_ATOM = (str, int, float, bool, type(None), bytes, FrozenVec, FrozenAngle, FrozenMatrix, V.Vec4)
+_ATOM = (str, int, float, bool, type(None), bytes, FrozenVec, FrozenAngle, FrozenMatrix, V.Vec4, re.Pattern)
 _SKIP_ATTRS = {'map', 'vmf'}
 
 
@@ -181,7 +181,14 @@ def observe(kind, obj):
     if kind == 'kv':
         return _kvsnap(obj)
     if kind == 'fixup':
-        return sorted([f.id, f.var, f.value] for f in obj._fixup.values())
+        # behaviour, not just stored fields: a complete copy substitutes variables and answers lookups like its source
+        probe = ' '.join('$' + f.var for f in obj._fixup.values()) + ' $unknown'
+        try:
+            sub = obj.substitute(probe, allow_invert=True)
+        except Exception as exc:
+            sub = f'<{type(exc).__name__}>'
+        return {'values': sorted([f.id, f.var, f.value] for f in obj._fixup.values()), 'substitute': sub,
+                'items': sorted(obj.items()), 'len': len(obj)}
     raise ValueError(kind)
 
 
